@@ -129,6 +129,8 @@ class World:
     def token(self, values):
         if values is None:
             return None
+        if isinstance(values, str):
+            return "text"
         arr = np.asarray(values, dtype=float).ravel()
         if arr.size == 0 or np.isnan(arr[0]):
             return None
@@ -187,7 +189,18 @@ class World:
             cname = type(o).__name__
             assoc = ASSOC.get(cname, "OBJECT")
             n = {"VERTEX": getattr(o, "n_vertices", None), "CELL": getattr(o, "n_cells", None)}.get(assoc) or 2
-            e = o.add_data({a["n"]: {"values": self.values(a["v"], n), "association": assoc}})
+            spec = {"values": self.values(a["v"], n), "association": assoc}
+            others = [d for s2, d in self.side.items() if kind(s2) == "D" and getattr(d, "association", None) is not None
+                      and d.name != "Visual Parameters"]
+            if self.variant % 5 == 2 and others:
+                # join the type of an existing data set: the shared type must stay as it is
+                spec["entity_type"] = {"uid": others[0].entity_type.uid, "primitive_type": "FLOAT",
+                                       "number_of_bins": 25, "units": "unit-x"}
+            e = o.add_data({a["n"]: spec})
+            self.bind(a["s"], e)
+        elif act == "AddVisual":
+            o = self.ent(a["p"])
+            e = o.add_default_visual_parameters()
             self.bind(a["s"], e)
         elif act == "Rename":
             self.ent(a["s"]).name = a["n"]
@@ -519,6 +532,8 @@ class World:
                     continue
                 s = self.slot_of(c.uid)
                 val = self.token(c.values) if kind(s) == "D" or hasattr(c, "association") else 0
+                if c.name == "Visual Parameters":
+                    val = "vp"
                 pgs = sorted((g.name, sorted(str(self.slot_of(u)) for u in (g.properties or [])))
                              for g in (getattr(c, "property_groups", None) or []))
                 key = str(s)
@@ -536,7 +551,7 @@ class World:
             par = e.parent
             mem[str(s)] = {"par": self.slot_of(par.uid) if par is not None else -1, "name": e.name,
                            "flag": bool(e.allow_delete),
-                           "val": (self.token(e.values) if kind(s) == "D" else 0),
+                           "val": ("vp" if e.name == "Visual Parameters" else self.token(e.values)) if kind(s) == "D" else 0,
                            "meta": _meta_token(e.metadata) if kind(s) in "GO" else 0}
         conts = {0: self.ws.root}
         conts.update({s: e for s, e in ents.items() if kind(s) in "GO"})
@@ -546,6 +561,13 @@ class World:
                 for g in (e.property_groups or []):
                     pgs[str(self.pgslot_of(g.uid))] = {"owner": s, "name": g.name,
                                                       "props": sorted(str(self.slot_of(u)) for u in (g.properties or []))}
+        for s, e in conts.items():
+            if kind(s) == "O":
+                vp = e.visual_parameters
+                if vp is not None and not any(vp is c for c in e.children):
+                    raise Divergence("visual-parameters-of-another-object",
+                                     f"object in slot {s} refers to visual parameters that are not among its children "
+                                     f"(they belong to slot {self.slot_of(vp.parent.uid)})", "C12,C09")
         live_reg = set()
         names = self.ws.list_entities_name
         pg_uids = set(self.ws.list_property_groups_name)
@@ -587,6 +609,8 @@ class World:
                 if cont == "Data":
                     ds = node["datasets"].get("Data")
                     val = self.token(ds.get("value")) if ds else None
+                    if node["attrs"].get("Name") == "Visual Parameters":
+                        val = "vp"
                 if s != 0:
                     meta = 0
                     if cont != "Data" and "Metadata" in node["datasets"]:
@@ -637,6 +661,8 @@ def _as_map(m):
 def _val(s, r):
     if kind(s) != "D":
         return 0
+    if r["name"] == "Visual Parameters":
+        return "vp"            # the XML text of visual parameters is not modelled
     return r["val"] if r["val"] != 0 else None     # token 0 = a data node without values (failed write)
 
 
@@ -788,7 +814,11 @@ def replay_path(item):
                     return viol
             # ---- live
             if post["mode"] != "closed":
-                got_l = w.project_live()
+                try:
+                    got_l = w.project_live()
+                except Divergence as dv:
+                    bad(dv.sig, dv.msg, dv.prop)
+                    return viol
                 d = first_diff(expect_live(post), got_l)
                 if d:
                     bad(f"live:{lab['act']}:{_field(d)}", f"live workspace differs from the specification: {d}")
@@ -928,10 +958,10 @@ def _footprint(w, before, after, lab, pre):
             offending.append(k)
         elif k.startswith("Types/"):
             if k in before and k in after:
-                # an existing type may change only when it is the type of a data node in the footprint
-                # (statistics cache cleared, h5_writer.py:661-684); decided below from the snapshot
-                tuid = k.split("/")[-1]
-                if tuid not in getattr(w, "_foot_types", set()):
+                # an existing type keeps its attributes; its datasets may change only when it is the type of a data
+                # node in the footprint (statistics cache cleared, h5_writer.py:661-684)
+                tuid, part = k.split("/")[-1].split(":")
+                if part == "attrs" or tuid not in getattr(w, "_foot_types", set()):
                     offending.append(k)
         else:
             uid = k.split("/")[1].split(":")[0]
